@@ -27,6 +27,8 @@ CLAIMED = {
  'C08': lex('After a failure: input position, empty match, rule set Init in both __state and __initial_state, user state untouched - the post-state is the Init boundary state, so by induction all later calls are the reference from there.'),
  'C09': lex('No panic / overflow / unreachable on any path of next() (compiler-inserted checks are real assertions in MIR), every path terminates within the step bound, the saved match is cleared, every call accounts for input or the single end-of-input event.'),
  'C10': lex('Action log (rule id, match_loc, peek) equals the reference for every decision history (return / continue / reset+continue / switch / switch_and_return / Ok / Err chosen by solver variables), one invocation per selected match, none for abandoned candidates, sugar forms as their desugaring, user state touched only by actions.'),
+ 'C14': lex('Constructor equivalence: the four real constructors (generated wrappers + lexgen_util) are executed on the same symbolic character sequence and equal user state; every field except `input` is decided equal (structurally / by z3) and equal to the initial boundary state B(Init, Loc::ZERO) from which the shared `next()` MIR (generic over the iterator type) is covered by the one-step results.'),
+ 'C15': lex('Clone: at every boundary state reached by one call from every start boundary state (all paths; after tokens, errors, switches, None/done) the real derived Clone code of the generated struct and of lexgen_util::Lexer is executed and the clone is decided structurally equal to the original and the original unchanged; with value semantics and no shared state equal states give equal, independent streams.'),
  'C11': dict(
    text='Bounded symbolic execution of the real MIR of RangeMap::insert / insert_ranges / remove_ranges / Range::contains from an ARBITRARY valid map (inductive step), every path decided by z3 for all end points, values and code points; maps of at most K ranges (K=3 quick, 4 thorough). Class expressions end to end are covered by the C02 lexers with `#` chains.',
    note='Trusted: rustc MIR dump, the MIR executor (validated on every run against the natively compiled functions on concrete cases), z3, summaries of the std items called (Vec push/extend/iterators, cmp::min/max, Ord::cmp, RangeInclusive accessors, checked +/-). Outside the claim: maps with more than K ranges.',
